@@ -127,8 +127,10 @@ AvoidList(rs) ==
       all == {o[k] : k \in 1..Len(o)}
       c0 == IF Len(o) > 0 THEN o[1] ELSE IdName
       c1 == IF Len(o) > 0 THEN PickOne("list", rs[1], {Upper(c0)}, Decomp) ELSE IdName
-  IN {{}, {IdName}, {c0}, {Lower(c0)}, {c0, c1}, {c1, IdName}, {o[k] : k \in {Len(o)} \cap DOMAIN o},
-      all, UpperSet(all)}
+  IN {{}, {IdName}, {c0}, UpperSet(all)}
+     \cup (IF Len(rs) <= 2    \* fewer avoid sets for the (many) longer batches
+           THEN {{Lower(c0)}, {c0, c1}, {c1, IdName}, {o[k] : k \in {Len(o)} \cap DOMAIN o}, all}
+           ELSE {})
 
 Inputs ==
   UNION {{[fn |-> fn, reqs |-> <<r>>, avoid |-> A] : A \in AvoidSingle(fn, r)} :
